@@ -218,6 +218,9 @@ func (m *SessionManager) CreateSession(clientMAC, serverMAC net.HardwareAddr) (*
 	m.sessions[m.nextID] = session
 	m.macToSession[clientMAC.String()] = m.nextID
 	m.nextID++
+	if m.nextID == 0 {
+		m.nextID = 1 // Skip 0 (also when the counter wraps right here)
+	}
 
 	return session, nil
 }
